@@ -39,17 +39,16 @@ class NodeRes:
         return vals
 
 
-def own_expansion(nd, res, min1=False):
-    """own splitter -> (list of {axis: idx}, axes list, {field: (axis, values | ("node", U))});
-    min1: treat empty lists as one-element lists (used only to enumerate the *other* axes of a node that runs no job)"""
+def own_expansion(nd, res):
+    """own splitter -> (list of {axis: idx}, axes list, {field: (axis, values | ("node", U))}, {axis: size})"""
     sp = nd.get("split")
     if not sp:
-        return [{}], [], {}
+        return [{}], [], {}, {}
     vals, lens = {}, {}
     for f, r in sp["vals"].items():
         if r[0] == "lit":
             vals[f] = r[1]
-            lens[f] = max(1, len(r[1])) if min1 else len(r[1])
+            lens[f] = len(r[1])
         elif r[0] == "node":
             # split over the list output of an upstream (uncombined, list-producing) node: every upstream
             # job contributes the same number of elements
@@ -66,7 +65,8 @@ def own_expansion(nd, res, min1=False):
         for f in ax:
             axid[f] = a
     out = [{axid[f]: i for f, i in d.items()} for d in exp]
-    return out, ax_ids, {f: (axid[f], vals[f]) for f in vals}
+    sizes = dict(zip(ax_ids, shape))
+    return out, ax_ids, {f: (axid[f], vals[f]) for f in vals}, sizes
 
 
 def upstream_of(nd):
@@ -105,8 +105,11 @@ def evaluate(spec, wfin=None, jobs_out=None):
             for k in U.axes:
                 if k not in axes:
                     axes.append(k)
-        own, own_axes, fieldax = own_expansion(nd, res)
-        inherited = cur
+        own, own_axes, fieldax, own_sizes = own_expansion(nd, res)
+        sizes = {}
+        for u in upstream_of(nd):
+            sizes.update(res[u].sizes)
+        sizes.update(own_sizes)
         cur = [{**c, **o} for c in cur for o in own]
         axes = axes + own_axes
         jobs = []
@@ -154,15 +157,14 @@ def evaluate(spec, wfin=None, jobs_out=None):
             groups.setdefault(tuple((ax, c[ax]) for ax in rem), []).append(out)
         combined = len(rem) < len(axes)
         table = OrderedDict((k, (v if combined else v[0])) for k, v in groups.items())
-        if combined and not jobs:
-            # nothing ran (a split over an empty list).  The nested loops still visit every assignment of the axes that
-            # remain after the combiner - unless one of *those* is empty - and collect an empty list for each
-            own1, _, _ = own_expansion(nd, res, min1=True)
-            empty_axes = {ax for ax, vals in fieldax.values() if isinstance(vals, list) and not vals}
-            if not any(ax in rem for ax in empty_axes):
-                for c in [{**c0, **o} for c0 in inherited for o in own1]:
-                    table.setdefault(tuple((ax, c[ax]) for ax in rem), [])
+        if combined and not jobs and all(sizes[ax] > 0 for ax in rem):
+            # nothing ran (some combined axis is empty).  The nested loops still visit every assignment of the axes that
+            # remain after the combiner and collect an empty list for each
+            import itertools
+            for idx in itertools.product(*[range(sizes[ax]) for ax in rem]):
+                table.setdefault(tuple(zip(rem, idx)), [])
         nr = NodeRes(name, axes, [(c, t) for c, t, _ in jobs if t is not None], rem, table, combined)
+        nr.sizes = {ax: sizes[ax] for ax in rem}
         nr.list_len = nd.get("n", 2) if kind == "L" and not combined else None
         res[name] = nr
     return res
